@@ -167,7 +167,10 @@ def lean_forbidden_tokens():
 
 
 def prop_theorems(module_file, prefix):
-    txt = strip_lean_comments(open(os.path.join(LEAN, module_file)).read())
+    path = os.path.join(LEAN, module_file)
+    if not os.path.exists(path):
+        return []
+    txt = strip_lean_comments(open(path).read())
     return re.findall(r"^\s*theorem\s+(%s\w*)" % re.escape(prefix), txt, flags=re.M)
 
 
